@@ -72,6 +72,10 @@ Theorem C27_source_facts :
   gen_check_last_kinds = map fst (filter (fun p => checks_last (snd p))
       [("TypeDir", EDir ""); ("TypeLink", EHard "" ""); ("TypeReg", EReg "" ""); ("TypeSymlink", ESym "" "")]) /\
   gen_hardlink_target_checked = true /\ gen_destination_itself_guard = true /\
+  (* one typeflag per branch ([EDir], [EReg], [ESym], [EHard]; every other typeflag is [EOther], skipped),
+     and an uploaded directory reaches the tree through UntarDirectory only *)
+  gen_switch_clauses = ["TypeDir"; "TypeReg"; "TypeSymlink"; "TypeLink"] /\
+  gen_upload_dir_branch_calls = ["UntarDirectory"; "fmt.Errorf"; "CalculateDirectorySize"] /\
   gen_ensure_uses_lstat = true /\ gen_ensure_rejects_symlink = true /\ gen_ensure_stops_at_missing = true.
 Proof. repeat split; reflexivity. Qed.
 Print Assumptions C27_source_facts.
